@@ -143,8 +143,10 @@ LOOPS[(FN, 0)].inv = _recording_inv
 CHECKS = [Check("traversal", [FN], traversal_check, replay_keys=["C12."])]
 TRUSTED = ["AccumulateGrad nodes <-> leaf tensors requiring grad; grad_fn.next_functions lists the (node, output index) edges [T]",
            "the deque is abstracted to the set of queued nodes; termination of the traversal is not proved"]
-ASSUMPTIONS = ["C12: the wrappers (_get_leaf_tensors, the defaults of backward / mtl_backward, the overlap rejection) are decided by the "
-               "bounded arm (random DAGs with multi-output ops against an independent edge-level DFS)"]
+ASSUMPTIONS = ["C12: the three contracts (traversal; _get_leaf_tensors against the traversal's contract; the defaults of backward / "
+               "mtl_backward against _get_leaf_tensors' contract) compose modularly; what an autograd graph looks like for a given "
+               "program (which nodes / edges exist) is PyTorch's and is exercised by the bounded arm only (random DAGs with "
+               "multi-output ops against an independent edge-level DFS)"]
 
 
 # ----------------------------------------------------------------------------- the defaults of backward / mtl_backward
@@ -237,3 +239,67 @@ def P_ndim(L):
 from tjv.pyvc.values import lift  # noqa: E402,F811
 CHECKS.append(Check("defaults", ["torchjd.autojac.backward.backward", "torchjd.autojac.mtl_backward.mtl_backward"], defaults_check,
                     replay_keys=["C12."]))
+
+
+# ----------------------------------------------------------------------------- _get_leaf_tensors (the wrapper)
+
+
+def leaf_wrapper_check(H):
+    """_get_leaf_tensors(tensors, excluded):  raises ValueError iff some member of either collection has no grad_fn; otherwise
+    calls the traversal ONCE with roots = {(t.grad_fn, t.output_nr) | t in tensors}, excluded_edges = the same image of
+    `excluded`, and returns exactly the image of the traversal result under node -> node.variable.  The traversal is replaced
+    by its contract (an arbitrary node set is returned; its own contract is C12.bfs.*)."""
+    from tjv.pyvc.values import TenS, U
+    from . import autojac as A
+    gf = lambda t: U("grad_fn", NodeS, t)  # noqa: E731
+    gfn = lambda t: U("grad_fn_is_none", z3.BoolSort(), t)  # noqa: E731
+    onr = lambda t: U("output_nr", z3.IntSort(), t)  # noqa: E731
+
+    def body(cx):
+        calls = []
+
+        def trav_contract(interp, args, kwargs):
+            roots = kwargs.get("roots", args[0] if args else None)
+            excl = kwargs.get("excluded_edges", args[1] if len(args) > 1 else None)
+            calls.append((roots, excl))
+            R = NodeSet(interp.cx, "accs")
+            calls[-1] += (R,)
+            return R
+        it = H.interp(cx, overrides={FN: trav_contract})
+        T = A.tensor_list(cx, "T")
+        E = A.tensor_list(cx, "E")
+        j = z3.Int("j!q")
+        bad = z3.Or(z3.Exists([j], z3.And(0 <= j, j < T.length, gfn(T.get(j).ref))), z3.Exists([j], z3.And(0 <= j, j < E.length, gfn(E.get(j).ref))))
+        kind, out = call_catch(lambda: it.call(H.repo.get("torchjd.autojac._utils._get_leaf_tensors"), [T, E]))
+        if kind == "raise":
+            cx.oblige("C12.leaves.raises_only_without_grad_fn", z3.And(out.cls == "ValueError", bad), where=str(getattr(out, "where", "")))
+            cx.oblige("C12.leaves.raises_before_traversing", len(calls) == 0)
+            return
+        cx.oblige("C12.leaves.accepts_only_with_grad_fn", z3.Not(bad))
+        cx.oblige("C12.leaves.one_traversal", len(calls) == 1)
+        if len(calls) != 1:
+            return
+        roots, excl, R = calls[0]
+        ok_types = isinstance(roots, EdgeSet) and isinstance(excl, EdgeSet) or isinstance(roots, EdgeSet) and isinstance(excl, (set, frozenset)) and not excl
+        cx.oblige("C12.leaves.edge_sets_passed", ok_types)
+        if not ok_types:
+            return
+        n, i = cx.fresh_const("n", NodeS), cx.fresh_int("i")
+
+        def image(L, n, i):
+            return z3.Exists([j], z3.And(0 <= j, j < L.length, gf(L.get(j).ref) == n, onr(L.get(j).ref) == i))
+        cx.oblige("C12.leaves.roots_are_the_edges_of_tensors", roots.contains(n, i) == image(T, n, i))
+        ex_pred = excl.contains(n, i) if isinstance(excl, EdgeSet) else z3.BoolVal(False)
+        cx.oblige("C12.leaves.excluded_are_the_edges_of_excluded", ex_pred == image(E, n, i))
+        t = cx.fresh_const("t", TenS)
+        S = out
+        okS = isinstance(S, V.SymSet)
+        cx.oblige("C12.leaves.returns_a_set_of_tensors", okS)
+        if okS:
+            m = z3.Const("m!q", NodeS)
+            cx.oblige("C12.leaves.result_is_the_variables_of_the_traversal_result",
+                      S.contains(t) == z3.Exists([m], z3.And(R.contains(m), U("variable", TenS, m) == t)))
+    H.explore(body, max_paths=2000)
+
+
+CHECKS.append(Check("leaf_wrapper", ["torchjd.autojac._utils._get_leaf_tensors"], leaf_wrapper_check, replay_keys=["C12."]))
